@@ -1519,6 +1519,9 @@ func (fv *FV) binop(st *State, op token.Token, xv, yv Value, xt, yt, rt types.Ty
 		}
 		return Scalar{Ite(Ge(b, IntLit(w)), Ite(Ge(a, IntLit(0)), IntLit(0), IntLit(-1)), EDiv(a, fv.pow2(b)))}
 	case token.AND:
+		if r := intBitFold("&", a, b); r != nil {
+			return Scalar{r}
+		}
 		// x & (2^k - 1) == x mod 2^k for non-negative x
 		if b.Op == "int" {
 			m := new(big.Int).Add(b.Int, big.NewInt(1))
@@ -1535,18 +1538,27 @@ func (fv *FV) binop(st *State, op token.Token, xv, yv Value, xt, yt, rt types.Ty
 		}
 		return Scalar{r}
 	case token.OR:
+		if r := intBitFold("|", a, b); r != nil {
+			return Scalar{r}
+		}
 		r := App("bvor", IntSort, a, b)
 		if unsigned {
 			st.assume(And(Ge(r, a), Ge(r, b), Le(r, Add(a, b))))
 		}
 		return Scalar{r}
 	case token.XOR:
+		if r := intBitFold("^", a, b); r != nil {
+			return Scalar{r}
+		}
 		r := App("bvxor", IntSort, a, b)
 		if unsigned {
 			st.assume(And(Le(IntLit(0), r), Le(r, Add(a, b))))
 		}
 		return Scalar{r}
 	case token.AND_NOT:
+		if r := intBitFold("&^", a, b); r != nil {
+			return Scalar{r}
+		}
 		r := App("bvandnot", IntSort, a, b)
 		if unsigned {
 			st.assume(And(Le(IntLit(0), r), Le(r, a)))
@@ -2028,5 +2040,37 @@ func (fv *FV) convert(st *State, v Value, from, to types.Type, pos token.Pos) Va
 		return v
 	}
 	fv.fail("unsupported conversion %s -> %s at %s", from, to, fv.pos(pos))
+	return nil
+}
+
+// intBitFold gives an exact arithmetic term for a bit operator on mathematical integers (infinite two's complement)
+// where one exists without bit-vectors: both operands literal -> the literal result; x & 2^k -> 2^k * ((x div 2^k) mod 2)
+// (bit k of x; SMT div by a positive divisor is floor division, so this is also right for negative x). nil otherwise.
+func intBitFold(op string, a, b *Term) *Term {
+	if a.Op == "int" && b.Op == "int" {
+		r := new(big.Int)
+		switch op {
+		case "&":
+			r.And(a.Int, b.Int)
+		case "|":
+			r.Or(a.Int, b.Int)
+		case "^":
+			r.Xor(a.Int, b.Int)
+		case "&^":
+			r.AndNot(a.Int, b.Int)
+		default:
+			return nil
+		}
+		return IntBig(r)
+	}
+	if op == "&" {
+		x, c := a, b
+		if x.Op == "int" {
+			x, c = b, a
+		}
+		if c.Op == "int" && c.Int.Sign() > 0 && new(big.Int).And(c.Int, new(big.Int).Sub(c.Int, big.NewInt(1))).Sign() == 0 {
+			return Mul(c, EMod(EDiv(x, c), IntLit(2)))
+		}
+	}
 	return nil
 }
